@@ -349,6 +349,24 @@ def run_c04(ctx):
             if errs:
                 ctx["violations"].append((f"{name}: {errs[0]}", {"kind": "graph-law", "program": text}))
         ctx["cov"]["graphs_checked_against_laws"] = n
+        # parse level: C04 quantifies over ALL assembler-valid programs, also those on which the analyses stop (a block that
+        # belongs to two routines): the graph laws are checked on parse_teal's result for every program without an analysis
+        # result and for all adversarial layouts, and the parse-level dump is compared with the model's
+        again = [(name, text) for name, text, meta, m, i in results if "blocks" not in i or meta["stream"] == "adversarial"]
+        cm, ci = corr.run_both([("cfg", f"g{k}", t, []) for k, (_, t) in enumerate(again)])
+        n2 = 0
+        for k, (name, text) in enumerate(again):
+            g = ci.get(f"g{k}")
+            if not isinstance(g, dict) or "blocks" not in g:
+                continue
+            n2 += 1
+            errs = [e for e in graphcheck.check_graph(text, g) if "subroutine" not in e and "callsub" not in e] if cm.get(f"g{k}", {}).get("structured") is False else graphcheck.check_graph(text, g)
+            if errs:
+                ctx["violations"].append((f"{name} (parse level): {errs[0]}", {"kind": "graph-law", "program": text}))
+            d = corr.cmp_cfg(cm[f"g{k}"], g)
+            if d and len(ctx["broken"]) < 4:
+                ctx["broken"].append(f"correspondence (parse-level graph) on {name}: {d[0][:300]} || program: {text!r}")
+        ctx["cov"]["parse_level_graphs_checked"] = n2
     generic_run(ctx, cmp_for(), set(), extra=extra)
 
 
